@@ -24,6 +24,9 @@ class Block:
         self.preds = []
 
 
+COPY_PROPAGATION = not os.environ.get("VERIF_NO_COPYPROP")
+
+
 class Function:
     def __init__(self, d, unit):
         self.d = d
@@ -87,11 +90,284 @@ class Function:
                 nid = n["sub"]
             elif k == "stmtexpr" and n.get("sub"):
                 nid = n["sub"]
+            elif k == "ref" and COPY_PROPAGATION and n.get("dk") == "local":
+                src = self.copy_src(nid)
+                if src is None:
+                    return nid
+                nid = src
             else:
                 return nid
 
     def sn(self, nid, casts=True):
         return self.nodes[self.strip(nid, casts)]
+
+    # --- copy propagation ---------------------------------------------------
+    # A named temporary is not a change of behaviour: `bool failed = rc < 0; if (failed)`,
+    # `enum conn_state state = bts->conn.state; if (state == ...)`, `struct mbuf *rbuf = &ts->conn.receive_mbuf;
+    # mbuf_reset(rbuf)`.  A use of a local that has exactly one definition (its initialiser), is never assigned
+    # again, whose address is never taken and whose initialiser is a pure expression is read through to that
+    # initialiser - provided nothing the initialiser reads can change on any path from the definition to the use.
+    PURE = ("ref", "member", "un", "bin", "cast", "paren", "index", "int", "char", "sizeof", "opaque")
+
+    def _single_defs(self):
+        d = getattr(self, "_sdefs", None)
+        if d is not None:
+            return d
+        decls = {}      # did -> [(decl node, init)]
+        bad = set()
+        for nid, n in self.nodes.items():
+            k = n["k"]
+            if k == "decl":
+                for v in n["vars"]:
+                    decls.setdefault(v.get("did"), []).append((nid, v.get("init"), v.get("t") or ""))
+            elif k == "bin" and n["op"] in ASSIGN_OPS:
+                ln = self.nodes[self._strip0(n["l"])]
+                if ln["k"] == "ref":
+                    bad.add(ln.get("did"))
+            elif k == "un" and n["op"] in ("++", "--", "post++", "post--", "&"):
+                ln = self.nodes[self._strip0(n["sub"])]
+                if ln["k"] == "ref":
+                    bad.add(ln.get("did"))
+        w = self.where()
+        out = {}
+        for did, ds in decls.items():
+            if did is None or did in bad or len(ds) != 1:
+                continue
+            dn, init, t = ds[0]
+            if init is None or dn not in w:
+                continue
+            if "[" in t or ((t.startswith("struct ") or t.startswith("union ") or t.startswith("const struct ")) and "*" not in t):
+                continue
+            if not self._pure(init) or not self._temp_shape(init):
+                continue
+            out[did] = (dn, init)
+        self._sdefs = out
+        return out
+
+    def _temp_shape(self, init):
+        """the shapes of named temporaries that are read through: the result of a comparison / logical
+        operation, the value of a field, the address of a sub-object.  (Pointer arithmetic - the TOxxx()
+        private-data macros -, copies of parameters and arithmetic stay variables of their own.)"""
+        top = self.nodes[self._strip0(init)]
+        k = top["k"]
+        if k == "bin":
+            return top["op"] in ("==", "!=", "<", "<=", ">", ">=", "&&", "||")
+        if k == "un" and top["op"] == "!":
+            return True
+        if k == "member":
+            return bool(top.get("field"))
+        if k == "un" and top["op"] == "&":
+            x = self._strip0(top["sub"])
+            m = self.nodes[x]
+            if m["k"] != "member":
+                return False
+            while m["k"] == "member":
+                x = self._strip0(m["base"])
+                m = self.nodes[x]
+            return m["k"] == "ref"
+        return False
+
+    def _strip0(self, nid):
+        while True:
+            n = self.nodes[nid]
+            if n["k"] in ("paren", "opaque", "cast"):
+                nid = n["sub"]
+            else:
+                return nid
+
+    def _walk_values(self, nid):
+        """like walk(), but a call is a leaf: its value was fixed when it was evaluated"""
+        st = [nid]
+        while st:
+            i = st.pop()
+            yield i
+            if self.nodes[i]["k"] != "call":
+                st.extend(reversed(self.children(i)))
+
+    def _pure(self, nid):
+        top = self.nodes[self._strip0(nid)]
+        flag = (top["k"] == "bin" and top["op"] in ("==", "!=", "<", "<=", ">", ">=", "&&", "||")) or (top["k"] == "un" and top["op"] == "!")
+        for x in self._walk_values(nid):
+            n = self.nodes[x]
+            k = n["k"]
+            if k == "call" and flag and x != self._strip0(nid):
+                continue        # `bool ok = f(...) == 0`: the temporary names the outcome of that one evaluation
+            if k not in self.PURE:
+                return False
+            if k == "bin" and n["op"] in ASSIGN_OPS:
+                return False
+            if k == "un" and n["op"] in ("++", "--", "post++", "post--"):
+                return False
+            if k == "ref" and n.get("dk") == "function":
+                return False
+        return True
+
+    def _reads(self, init):
+        """(dids of locals/params read, reads memory?)"""
+        dids, mem = set(), False
+        for x in self._walk_values(init):
+            n = self.nodes[x]
+            if n["k"] == "call":
+                continue
+            if n["k"] == "ref":
+                if n.get("dk") in ("local", "param"):
+                    dids.add(n.get("did"))
+                elif n.get("dk") not in ("enumconst", "function"):
+                    mem = True
+            elif n["k"] in ("member", "index") or (n["k"] == "un" and n["op"] == "*"):
+                mem = True
+        # `&a->b` alone computes an address and reads only the pointer a
+        top = self.nodes[self._strip0(init)]
+        if top["k"] == "un" and top["op"] == "&":
+            inner = top["sub"]
+            chain_ok = True
+            x = self._strip0(inner)
+            while True:
+                m = self.nodes[x]
+                if m["k"] == "member":
+                    if m.get("arrow"):
+                        b = self.nodes[self._strip0(m["base"])]
+                        chain_ok = b["k"] == "ref"
+                        break
+                    x = self._strip0(m["base"])
+                    continue
+                chain_ok = m["k"] == "ref"
+                break
+            if chain_ok:
+                mem = False
+        return dids, mem
+
+    def _clobbers(self, e, dids, mem):
+        n = self.nodes[e]
+        k = n["k"]
+        if k == "call":
+            c = n.get("callee") or ""
+            if mem and not c.startswith("__builtin_") and c != "__errno_location":
+                return True
+            return False
+        lhs = None
+        if k == "bin" and n["op"] in ASSIGN_OPS:
+            lhs = n["l"]
+        elif k == "un" and n["op"] in ("++", "--", "post++", "post--"):
+            lhs = n["sub"]
+        if lhs is None:
+            return False
+        ln = self.nodes[self._strip0(lhs)]
+        if ln["k"] == "ref":
+            return ln.get("did") in dids
+        return mem
+
+    def copy_src(self, nid):
+        cache = getattr(self, "_csrc", None)
+        if cache is None:
+            cache = self._csrc = {}
+        if nid in cache:
+            return cache[nid]
+        cache[nid] = None
+        n = self.nodes[nid]
+        sd = self._single_defs().get(n.get("did"))
+        if sd is None:
+            return None
+        dn, init = sd
+        w = self.where()
+        x = nid
+        par = self.parents()
+        while x is not None and x not in w:
+            x = par.get(x)
+        if x is None:
+            return None
+        ub, ui = w[x]
+        db, di = w[dn]
+        dids, mem = self._reads(init)
+        # operands whose address is taken anywhere may change behind our back
+        for m in self.nodes.values():
+            if m["k"] == "un" and m["op"] == "&":
+                ln = self.nodes[self._strip0(m["sub"])]
+                if ln["k"] == "ref" and ln.get("did") in dids:
+                    mem = True
+        between = []
+        if ub == db and ui > di:
+            between = list(self.blocks[db].elems[di + 1:ui])
+        else:
+            # blocks on a path from the definition to the use that does not pass the definition again
+            fwd, st = set(), [s_ for s_ in self.blocks[db].succs if s_ is not None]
+            while st:
+                b = st.pop()
+                if b in fwd or b == db:
+                    continue
+                fwd.add(b)
+                st.extend(s_ for s_ in self.blocks[b].succs if s_ is not None)
+            bwd, st = set(), [ub]
+            while st:
+                b = st.pop()
+                if b in bwd or b == db:
+                    continue
+                bwd.add(b)
+                st.extend(self.blocks[b].preds)
+            if ub not in fwd:
+                return None       # the use is not dominated in the simple sense (e.g. use before definition in a loop)
+            between = list(self.blocks[db].elems[di + 1:])
+            for b in fwd & bwd:
+                if b == ub:
+                    between.extend(self.blocks[b].elems[:ui])
+                    # the use block may also lie on a cycle back to itself
+                    if any(p in fwd and p in bwd and ub in self._reach_from(ub, db) for p in self.blocks[ub].preds if p == ub):
+                        between.extend(self.blocks[b].elems[ui:])
+                else:
+                    between.extend(self.blocks[b].elems)
+            if ub in self._reach_from(ub, db):
+                between.extend(self.blocks[ub].elems[ui:])     # the use sits in a loop that does not re-run the definition
+        for e in between:
+            if self._clobbers(e, dids, mem):
+                return None
+        cache[nid] = init
+        return init
+
+    def origin(self, nid, _depth=0):
+        """where a value comes from: parens/casts stripped, and a local that is defined exactly once (by its
+        initialiser or by one assignment), never modified and never address-taken is followed to the defining
+        expression - whatever that is (a call result is fixed once evaluated).  For rules that ask "is this
+        argument the result of f()" and must not care whether the result was given a name first."""
+        x = self.strip(nid)
+        n = self.nodes[x]
+        if n["k"] != "ref" or n.get("dk") != "local" or _depth > 6:
+            return x
+        od = getattr(self, "_odefs", None)
+        if od is None:
+            defs, bad = {}, set()
+            for i, m in self.nodes.items():
+                k = m["k"]
+                if k == "decl":
+                    for v in m["vars"]:
+                        if v.get("init") is not None:
+                            defs.setdefault(v.get("did"), []).append(v["init"])
+                elif k == "bin" and m["op"] in ASSIGN_OPS:
+                    ln = self.nodes[self._strip0(m["l"])]
+                    if ln["k"] == "ref":
+                        if m["op"] == "=":
+                            defs.setdefault(ln.get("did"), []).append(m["r"])
+                        else:
+                            bad.add(ln.get("did"))
+                elif k == "un" and m["op"] in ("++", "--", "post++", "post--", "&"):
+                    ln = self.nodes[self._strip0(m["sub"])]
+                    if ln["k"] == "ref":
+                        bad.add(ln.get("did"))
+            od = self._odefs = {d: v[0] for d, v in defs.items() if len(v) == 1 and d not in bad and d is not None}
+        src = od.get(n.get("did"))
+        if src is None:
+            return x
+        return self.origin(src, _depth + 1)
+
+    def _reach_from(self, b0, stop):
+        """blocks reachable from the successors of b0 without passing `stop`"""
+        seen, st = set(), [s_ for s_ in self.blocks[b0].succs if s_ is not None]
+        while st:
+            b = st.pop()
+            if b in seen or b == stop:
+                continue
+            seen.add(b)
+            st.extend(s_ for s_ in self.blocks[b].succs if s_ is not None)
+        return seen
 
     def children(self, nid):
         n = self.nodes[nid]
